@@ -61,7 +61,9 @@ def cases(draw):
     dirs = [0] * nfiles
     # links: every input file is a symbolic link, in one directory, to a file stored elsewhere (one or two storage directories)
     # relative: the files are named relative to the directory the caller works in ("data0/a.root", "./data0/a.root")
-    layout = draw(st.sampled_from(["same", "same", "same", "two-dirs", "missing", "links", "relative"]))
+    # via-link: the files are named through a symbolic link to a directory elsewhere, followed by '..' (a purely textual clean-up of the
+    # path would name another directory than the one the files are in)
+    layout = draw(st.sampled_from(["same", "same", "same", "two-dirs", "missing", "links", "relative", "via-link"]))
     rel_prefix = draw(st.sampled_from(["", "./"])) if layout == "relative" else None
     link_targets = [draw(st.integers(0, 1)) for _ in range(nfiles)] if layout == "links" else None
     if layout == "two-dirs" and nfiles >= 2:
@@ -86,7 +88,7 @@ def cases(draw):
     if draw(st.integers(0, 2)) == 0:
         second = {"md": draw(st.lists(st.sampled_from(["md/second:9", "other/img:2"]), min_size=0, max_size=1)),
                   "outcome": draw(st.sampled_from(["success", "success", "fail-before"])), "payload": draw(st.binary(min_size=1, max_size=12)).decode("latin-1")}
-    return {"outdir_missing": outdir_missing, "rel_prefix": rel_prefix, "second": second, "backend": backend, "names": names, "dirs": dirs, "missing": missing, "link_targets": link_targets, "form": form, "image": image, "tag": tag, "default_image": use_default_image, "md": md,
+    return {"via_link": layout == "via-link", "outdir_missing": outdir_missing, "rel_prefix": rel_prefix, "second": second, "backend": backend, "names": names, "dirs": dirs, "missing": missing, "link_targets": link_targets, "form": form, "image": image, "tag": tag, "default_image": use_default_image, "md": md,
             "outdir": outdir, "outcome": outcome, "chunks": [(k, d.decode("latin-1")) for k, d in chunks], "fail_after": fail_after, "payload": payload.decode("latin-1")}
 
 
@@ -119,6 +121,16 @@ def run_case(c: dict) -> dict:
             elif i not in c["missing"]:
                 open(p, "wb").write(b"data")
             paths.append(p)
+        if c.get("via_link"):
+            # data1/deep is a directory in ANOTHER data directory; data1 also holds decoy files of the same names with other content
+            deep = os.path.join(ddirs[1], "deep")
+            os.makedirs(deep)
+            for n in c["names"]:
+                open(os.path.join(ddirs[1], n), "wb").write(b"decoy")
+            os.symlink(deep, os.path.join(scratch, "lnk"))
+            # <scratch>/lnk/../<name> IS data1/<name> for the file system (lnk -> data1/deep), textually it looks like <scratch>/<name>
+            paths = [os.path.join(scratch, "lnk", "..", os.path.basename(p)) for p in paths]
+            obs["true_data_dir"] = ddirs[1]
         if c.get("rel_prefix") is not None:
             # the caller works in the scratch directory and names the files relative to it
             os.chdir(scratch)
@@ -247,9 +259,10 @@ def judge(c: dict, obs: dict):
         raise Violation("volumes", f"/scripts and /results are different directories: {vols}", rep)
     if len(scripts) < 3 or scripts[2] != "ro" or len(data) < 3 or data[2] != "ro" or (len(results) >= 3 and results[2] != "rw"):
         raise Violation("volume-modes", f"expected /scripts ro, /results rw, /data ro: {vols}", rep)
-    if os.path.normpath(data[0]) != os.path.normpath(obs["ddirs"][0]):
+    want_dir = obs.get("true_data_dir") or obs["ddirs"][0]
+    if os.path.realpath(data[0]) != os.path.realpath(want_dir) if obs.get("true_data_dir") else os.path.normpath(data[0]) != os.path.normpath(obs["ddirs"][0]):
         # (docker takes a volume source that is not an absolute path for the NAME of a volume, not for a directory)
-        raise Violation("data-dir", f"/data is {data[0]}, files are in {obs['ddirs'][0]}", rep)
+        raise Violation("data-dir", f"/data is {data[0]}, files are in {want_dir}", rep)
     extra = sorted((v[0], v[1]) for v in vols if v[1].rstrip("/") not in ("/scripts", "/results", "/data"))
     if extra != sorted(CACHE[c["backend"]]):
         raise Violation("cache-volumes", f"cache volumes {extra}; expected {CACHE[c['backend']]}", rep)
@@ -299,7 +312,7 @@ def worker(payload):
         obs = run_case(c)
         res = judge(c, obs)
         nt = len(c["names"]) >= 2 or bool(c["md"]) or c["outcome"] != "success" or res == "input-error"
-        labels = (["second-query-on-same-dataset"] if c.get("second") else []) + [f"backend={c['backend']}", "outcome=" + c["outcome"], "result=" + res, f"files={len(c['names'])}", f"metadata={len(c['md'])}", "form=" + c["form"], "inputs=" + ("symlinks" if c.get("link_targets") else ("relative-paths" if c.get("rel_prefix") is not None else "files")),
+        labels = (["second-query-on-same-dataset"] if c.get("second") else []) + [f"backend={c['backend']}", "outcome=" + c["outcome"], "result=" + res, f"files={len(c['names'])}", f"metadata={len(c['md'])}", "form=" + c["form"], "inputs=" + ("symlinks" if c.get("link_targets") else ("relative-paths" if c.get("rel_prefix") is not None else ("via-linked-directory" if c.get("via_link") else "files"))),
                   "outdir=" + (("missing" if c.get("outdir_missing") else "given") if c["outdir"] else "default")]
         stats.case(jdump(c), nt or bool(c.get("second")), labels, {k: c[k] for k in ("backend", "names", "dirs", "missing", "form", "md", "outcome", "fail_after", "second")})
 
